@@ -195,7 +195,7 @@ def _wsgi_part(ctx, case, accepted, texts):
 
 # ------------------------------------------------------------------ exhaustive small universe
 def small_universe(ctx):
-    segs = [['lit', 'a'], ['lit', 'ab'], ['lit', '/'], ['w', 'w', None, None], ['w', 'n', 'int', None]]
+    segs = [['lit', 'a'], ['lit', 'ab'], ['lit', '/'], ['w', 'w', None, None], ['w', 'n', 'int', None], ['w', 'r', 're', r'-?\d+']]
     rules = []
     for n in (1, 2, 3):
         for combo in itertools.product(segs, repeat=n):
@@ -210,7 +210,7 @@ def small_universe(ctx):
     alphabet = ['a', 'b', '/', '1', '\r']
     paths = ['/' + ''.join(p) for n in range(0, 5) for p in itertools.product(alphabet, repeat=n)]
     pairs = [(x, y) for x in rules for y in rules if x is not y]
-    step = 1 if ctx.tier == 'thorough' else 37
+    step = 1 if ctx.tier == 'thorough' else 97
     mine = pairs[ctx.shard::max(1, ctx.nshards)][::step]
     for x, y in mine:
         case = {'regs': [{'ast': x, 'choice': [], 'method': 'GET'}, {'ast': y, 'choice': [1], 'method': 'POST'}], 'spell': 0, 'paths': paths}
